@@ -186,7 +186,13 @@ pub struct Report {
 }
 
 pub fn silence_panics() {
-    std::panic::set_hook(Box::new(|_| {}));
+    // panics raised inside `catch` (expected, part of the oracle) are silent; any other panic is a
+    // machinery failure and is printed
+    std::panic::set_hook(Box::new(|info| {
+        if crate::QUIET.with(|q| q.get()) == 0 {
+            eprintln!("MACHINERY PANIC: {info}");
+        }
+    }));
 }
 
 impl Report {
